@@ -39,16 +39,18 @@ type evalResult struct {
 	Site   string `json:"site,omitempty"`
 }
 
-// panicSite returns the first frame of the stack that lies inside /repo.
+// panicSite returns the innermost function of the pangaea module on the stack
+// (e.g. "evaluator.strRange"), independent of where the repository is checked out.
 func panicSite(stack string) string {
-	lines := strings.Split(stack, "\n")
-	for _, l := range lines {
+	const mod = "github.com/Syuparn/pangaea/"
+	for _, l := range strings.Split(stack, "\n") {
 		l = strings.TrimSpace(l)
-		if strings.HasPrefix(l, "/repo/") {
-			if i := strings.Index(l, " "); i > 0 {
+		if strings.HasPrefix(l, mod) {
+			l = strings.TrimPrefix(l, mod)
+			if i := strings.LastIndex(l, "("); i > 0 {
 				l = l[:i]
 			}
-			return strings.TrimPrefix(l, "/repo/")
+			return l
 		}
 	}
 	return "?"
